@@ -205,6 +205,7 @@ func (w *fingerprintWriter) writeSelectionSet(sel *ast.SelectionSet) {
 	if sel == nil {
 		return
 	}
+	verifCount(7)
 	w.writeByte('{')
 	for _, isel := range sel.Selections {
 		switch s := isel.(type) {
